@@ -72,6 +72,101 @@ fn main() {
             };
             std::process::exit(code);
         }
+        "probe" => {
+            // msim probe <n-seeds> <file.mamba>...   : one multi-file program, seeds 0..n, both annotate values
+            let n: u64 = args.get(2).and_then(|v| v.parse().ok()).unwrap_or(12);
+            let files: Vec<scen::SrcFile> = args[3..]
+                .iter()
+                .map(|p| scen::SrcFile { path: std::path::Path::new(p).file_name().unwrap().to_string_lossy().into_owned(), text: std::fs::read_to_string(p).expect("read") })
+                .collect();
+            for annotate in [false, true] {
+                let p = scen::Program { files: files.clone(), annotate, features: vec![], label: "probe".into() };
+                let seeds: Vec<u64> = (0..n).collect();
+                let res = pool::par_map(&seeds, pool::workers(), |_, &s| {
+                    let mut refs = c12::RefCache::new();
+                    let r = refs.get_or_run(&p);
+                    let mut sc: scen::C12Scenario = serde_json::from_value(serde_json::json!({"property":"C12","seed":0,"index":0,"programs":[p.clone()],"threads":[{"hash_seed":s,"readdir_seed":0}],"clock":c12::CANON_CLOCK,"pid":c12::CANON_PID,"schedule":[{"jobs":[{"thread":0,"program":0,"measured":true}]}]})).unwrap();
+                    sc.cwd = "/".into();
+                    let j = c12::run_scenario(&sc).jobs.pop().unwrap();
+                    let cmp = c12::compare(&r, &j);
+                    (s, j, cmp)
+                });
+                let mut classes = std::collections::BTreeMap::new();
+                for (s, j, cmp) in &res {
+                    let k = match cmp { Some((c, d)) => format!("{c}: {d}"), None => format!("same ({})", j.verdict) };
+                    classes.entry(k).or_insert_with(Vec::new).push(*s);
+                }
+                println!("annotate={annotate}");
+                for (k, v) in classes {
+                    println!("  seeds {:?}: {}", v, k);
+                }
+                if let Some((_, j, _)) = res.first() {
+                    if j.verdict == "err" { println!("  canonical diagnostics: {}", j.diags.join(" || ").chars().take(600).collect::<String>()); }
+                    if j.verdict == "panic" { println!("  canonical panic: {}", j.panic_msg); }
+                    if std::env::var("MSIM_SHOW").is_ok() { for o in &j.outputs { println!("----\n{o}"); } }
+                }
+            }
+        }
+        "gen-stats" => {
+            let n: usize = args.get(2).and_then(|v| v.parse().ok()).unwrap_or(200);
+            let seed: u64 = args.get(3).and_then(|v| v.parse().ok()).unwrap_or(1);
+            let mut rng = util::Rng::new(seed);
+            let fenced = findings::fenced(&findings::load(&std::env::var("VERIF_DIR").unwrap_or_else(|_| "/verif".into())), "C12");
+            let progs: Vec<scen::Program> = (0..n).map(|i| scen::Program { files: gen::generate(&mut rng, &fenced), annotate: i % 2 == 0, features: vec![], label: format!("g{i}") }).collect();
+            let timed = pool::par_map(&progs, 4, |_, p| { let t = std::time::Instant::now(); let r = c12::RefCache::new().get_or_run(p); (r, t.elapsed().as_millis() as u64) });
+            let mut ts: Vec<(u64, usize)> = timed.iter().enumerate().map(|(i, (_, t))| (*t, i)).collect();
+            ts.sort();
+            println!("ms/job: median {} p90 {} max {:?} mean {}", ts[ts.len() / 2].0, ts[ts.len() * 9 / 10].0, ts.last().unwrap(), ts.iter().map(|t| t.0).sum::<u64>() / ts.len() as u64);
+            let res: Vec<scen::JobResult> = timed.into_iter().map(|(r, _)| r).collect();
+            let mut reasons: std::collections::BTreeMap<String, (usize, usize)> = Default::default();
+            let mut ok = 0;
+            for (i, r) in res.iter().enumerate() {
+                if r.verdict == "ok" { ok += 1; continue; }
+                let why = if r.verdict == "err" { r.diags.first().map(|d| d.lines().next().unwrap_or("").to_string()).unwrap_or_default() } else { format!("{}: {}", r.verdict, r.panic_msg.lines().next().unwrap_or("")) };
+                let why: String = why.chars().map(|c| if c.is_ascii_digit() { '#' } else { c }).collect();
+                let e = reasons.entry(why).or_insert((0, i));
+                e.0 += 1;
+            }
+            println!("accepted {ok}/{n}");
+            let mut v: Vec<_> = reasons.into_iter().collect();
+            v.sort_by_key(|(_, (c, _))| std::cmp::Reverse(*c));
+            for (why, (c, i)) in v.iter().take(25) {
+                println!("{c:4}  {why}   (e.g. #{i})");
+            }
+            if let Some(i) = args.get(4).and_then(|v| v.parse::<usize>().ok()) {
+                println!("---- program #{i}\n{}", progs[i].files[0].text);
+                println!("---- {:?}", res[i].diags);
+            }
+        }
+        "mkwitness" => {
+            // msim mkwitness <out.json> <max-seed> <file.mamba>... : find the first hash seed under which the
+            // program diverges from its canonical run, minimise, write the scenario as a witness
+            let out = args.get(2).cloned().expect("out path");
+            let n: u64 = args.get(3).and_then(|v| v.parse().ok()).unwrap_or(32);
+            let files: Vec<scen::SrcFile> = args[4..]
+                .iter()
+                .map(|p| scen::SrcFile { path: std::path::Path::new(p).file_name().unwrap().to_string_lossy().into_owned(), text: std::fs::read_to_string(p).expect("read") })
+                .collect();
+            let p = scen::Program { files, annotate: true, features: vec![], label: "witness".into() };
+            let mut refs = c12::RefCache::new();
+            for s in 1..=n {
+                let sc: scen::C12Scenario = serde_json::from_value(serde_json::json!({"property":"C12","seed":0,"index":0,"programs":[p.clone()],"threads":[{"hash_seed":s,"readdir_seed":0}],"cwd":"/","clock":c12::CANON_CLOCK,"pid":c12::CANON_PID,"schedule":[{"jobs":[{"thread":0,"program":0,"measured":true}]}]})).unwrap();
+                let (_, v) = c12::check_scenario(&sc, &mut refs);
+                if let Some(v0) = v.first() {
+                    let mut budget = 300;
+                    let mut min = c12::minimise(&sc, v0, &mut refs, &mut budget);
+                    min.expect = Some(scen::Expect { class: v0.class.clone(), detail: String::new() });
+                    let d = c12::replay(&min).expect("witness must replay");
+                    min.expect = Some(scen::Expect { class: v0.class.clone(), detail: d.clone() });
+                    min.programs[0].features = corpus::features_of(&min.programs[0].files, &corpus::builtin_names());
+                    std::fs::write(&out, serde_json::to_string_pretty(&min).unwrap()).unwrap();
+                    println!("witness written: {out}: {d}; features {:?}", min.programs[0].features);
+                    return;
+                }
+            }
+            println!("no divergence found up to seed {n}");
+            std::process::exit(1);
+        }
         "replay" => {
             let path = args.get(2).cloned().unwrap_or_default();
             let text = read_input(Some(&path));
